@@ -1,3 +1,4 @@
+import SqlProofs.FilterTotal
 import SqlModel.Options
 import SqlModel.Generated.ControlRun
 import SqlProofs.OptionsTotal
@@ -51,5 +52,18 @@ theorem grouping_total : type_of% @groupStatement_total := @groupStatement_total
 theorem grouping_total_wf : type_of% @group_total := @group_total
 theorem grouping_fuel_enough : type_of% @group_fuel_enough := @group_fuel_enough
 theorem grouping_fuel_monotone : type_of% @group_mono := @group_mono
+
+/-- **statement filters, totality on their domains** (`FilterSafe.*`, decidable, evaluated by the driver command `filtersafe`; each conjunct
+has a witness on the real code where its failure raises): `strip_comments` and `use_space_around_operators` raise nothing but RecursionError on
+every tree; `strip_whitespace`, `reindent_aligned` and `reindent` on their domains.  `strip_ws_parenthesis_fails` is the converse for
+`_stripws_parenthesis` (known finding KF-C07-1 as a theorem pair); a Case without a direct END child is KF-C07-2. -/
+theorem strip_comments_total : type_of% @Sql.stripComments_total := @Sql.stripComments_total
+theorem spaces_total : type_of% @Sql.spaces_total := @Sql.spaces_total
+theorem strip_whitespace_total : type_of% @Sql.stripWhitespace_total := @Sql.stripWhitespace_total
+theorem strip_ws_parenthesis_fails : type_of% @Sql.stripwsParenthesis_fails := @Sql.stripwsParenthesis_fails
+theorem aligned_total : type_of% @Sql.aligned_total := @Sql.aligned_total
+theorem reindent_total : type_of% @Sql.reindent_total := @Sql.reindent_total
+/-- a whole stack of statement filters: if every stage receives a tree of its domain, the stage raises only RecursionError (→ SQLParseError) -/
+theorem statement_filter_stack_total : type_of% @Sql.runStmtObjs_total := @Sql.runStmtObjs_total
 
 end Sql.C07
